@@ -337,4 +337,95 @@ theorem Raw.rotr_refines (s : Raw w) (hw : 0 < w) (h : s.Inv) (k : Nat) (hk : k 
       · have : ¬ i < s.length - k := by omega
         simp [hin, this]
 
+-- ---- spec-level corollaries -----------------------------------------------------------------------
+theorem BV.bit_of_le_len (a : BV) (hwf : a.WF) (i : Nat) (hi : a.len ≤ i) : a.bit i = false :=
+  Nat.testBit_lt_two_pow (Nat.lt_of_lt_of_le hwf (Nat.pow_le_pow_right (by omega) hi))
+
+theorem BV.rotl_wf (a : BV) (k : Nat) (hwf : a.WF) (hk : k ≤ a.len) : (a.rotl k).WF := by
+  by_cases h0 : a.len = 0
+  · unfold BV.rotl; rw [if_pos h0]; exact hwf
+  · unfold BV.WF
+    apply Nat.lt_pow_two_of_testBit
+    intro i hi
+    rw [BV.rotl_len] at hi
+    have := BV.rotl_bit a k i hwf hk (by omega)
+    rw [if_neg (by omega)] at this
+    unfold BV.bit at this
+    rw [this]
+    have : ¬ i < a.len := by omega
+    simp [this]
+
+theorem BV.rotr_wf (a : BV) (k : Nat) (hwf : a.WF) (hk : k ≤ a.len) : (a.rotr k).WF := by
+  by_cases h0 : a.len = 0
+  · unfold BV.rotr; rw [if_pos h0]; exact hwf
+  · unfold BV.WF
+    apply Nat.lt_pow_two_of_testBit
+    intro i hi
+    rw [BV.rotr_len] at hi
+    have := BV.rotr_bit a k i hwf hk (by omega)
+    rw [if_neg (by omega)] at this
+    unfold BV.bit at this
+    rw [this]
+    have : ¬ i < a.len := by omega
+    simp [this]
+
+theorem BV.rotr_rotl (a : BV) (k : Nat) (hwf : a.WF) (hk : k ≤ a.len) :
+    BV.rotr (BV.rotl a k) k = a := by
+  by_cases h0 : a.len = 0
+  · have e : a.rotl k = a := by unfold BV.rotl; rw [if_pos h0]
+    rw [e]; unfold BV.rotr; rw [if_pos h0]
+  · apply BV.ext_bits
+    · rw [BV.rotr_len, BV.rotl_len]
+    · intro i
+      have hb := BV.rotl_wf a k hwf hk
+      rw [BV.rotr_bit _ _ _ hb (by rw [BV.rotl_len]; exact hk) (by rw [BV.rotl_len]; omega),
+        BV.rotl_len]
+      by_cases h1 : i < a.len - k
+      · rw [if_pos h1, BV.rotl_bit _ _ _ hwf hk (by omega), if_neg (by omega)]
+        have : i + k < a.len := by omega
+        simp [this]
+      · rw [if_neg h1, BV.rotl_bit _ _ _ hwf hk (by omega)]
+        by_cases h2 : i < a.len
+        · rw [if_pos (by omega)]
+          simp only [h2, decide_true, Bool.true_and]
+          congr 1; omega
+        · rw [BV.bit_of_le_len a hwf i (by omega)]; simp [h2]
+
+theorem BV.rotl_rotr (a : BV) (k : Nat) (hwf : a.WF) (hk : k ≤ a.len) :
+    BV.rotl (BV.rotr a k) k = a := by
+  by_cases h0 : a.len = 0
+  · have e : a.rotr k = a := by unfold BV.rotr; rw [if_pos h0]
+    rw [e]; unfold BV.rotl; rw [if_pos h0]
+  · apply BV.ext_bits
+    · rw [BV.rotl_len, BV.rotr_len]
+    · intro i
+      have hb := BV.rotr_wf a k hwf hk
+      rw [BV.rotl_bit _ _ _ hb (by rw [BV.rotr_len]; exact hk) (by rw [BV.rotr_len]; omega),
+        BV.rotr_len]
+      by_cases h1 : i < k
+      · rw [if_pos h1, BV.rotr_bit _ _ _ hwf hk (by omega), if_neg (by omega)]
+        have : a.len - k + i < a.len := by omega
+        simp only [this, decide_true, Bool.true_and]
+        congr 1; omega
+      · rw [if_neg h1]
+        by_cases h2 : i < a.len
+        · rw [BV.rotr_bit _ _ _ hwf hk (by omega), if_pos (by omega)]
+          simp only [h2, decide_true, Bool.true_and]
+          congr 1; omega
+        · rw [BV.bit_of_le_len a hwf i (by omega)]; simp [h2]
+
+theorem BV.rotl_eq_rotr (a : BV) (k : Nat) (hwf : a.WF) (hk : k ≤ a.len) :
+    BV.rotl a k = BV.rotr a (a.len - k) := by
+  by_cases h0 : a.len = 0
+  · unfold BV.rotl BV.rotr; rw [if_pos h0, if_pos h0]
+  · apply BV.ext_bits
+    · rw [BV.rotl_len, BV.rotr_len]
+    · intro i
+      rw [BV.rotl_bit _ _ _ hwf hk (by omega), BV.rotr_bit _ _ _ hwf (by omega) (by omega)]
+      have e : a.len - (a.len - k) = k := by omega
+      rw [e]
+      by_cases h1 : i < k
+      · rw [if_pos h1, if_pos h1]; congr 1; omega
+      · rw [if_neg h1, if_neg h1]
+
 end Bva
